@@ -41,9 +41,12 @@ REPS = [
     # NaN nested in a vector / list / dict key (NaN equal to itself at every depth), with a second representative of the vector class
     ("vnan", "V(1, 0.0/0.0)", ["v", [cI(1), NAN]]), ("vnan", "V(1.0, 0.0/0.0)", ["v", [cF(1.0), NAN]]),
     ("lnan", "[0.0/0.0]", ["l", [NAN]]), ("dnan", "{1: 0.0/0.0}", ["d", [[cI(1), NAN]]]),
+    # an integer that no float represents, as an int and as an integral-valued rational (hash must not go through f64)
+    ("wide", "(2^53+1)", cI(2 ** 53 + 1)), ("wide", "((2^54+2)/2)", ["q", str(2 ** 53 + 1), "1"]),
+    ("third", "(1/3)", ["q", "1", "3"]), ("third", "((2^70+1)/(3*2^70+3))", ["q", "1", "3"]),
 ]
-QUICK_REPS = [0, 1, 2, 5, 6, 10, 11, 13, 14, 19, 22, 23]       # 1, 1.0, 2/2, 1/2, 0.5, 2^64, 2.0^64, [1], [1.0], "1", V(1, NaN), V(1.0, NaN)
-MID_REPS = [0, 1, 2, 3, 4, 5, 6, 7, 9, 10, 11, 12, 13, 14, 15, 16, 19, 22, 23, 24, 25]
+QUICK_REPS = [0, 1, 2, 5, 6, 10, 11, 13, 14, 19, 22, 23, 26, 27]       # 1, 1.0, 2/2, 1/2, 0.5, 2^64, 2.0^64, [1], [1.0], "1", V(1, NaN), V(1.0, NaN)
+MID_REPS = [0, 1, 2, 3, 4, 5, 6, 7, 9, 10, 11, 12, 13, 14, 15, 16, 19, 22, 23, 24, 25, 26, 27, 28, 29]
 
 OPS = ["set", "inc", "rem", "add", "sub", "merge", "inter", "minus", "plus", "ins"]
 RAISE = "raise"
